@@ -54,10 +54,11 @@ defvjp(inv, grad_inv)
 
 def grad_pinv(ans, x):
     # https://mathoverflow.net/questions/25778/analytical-formula-for-numerical-derivative-of-the-matrix-pseudo-inverse
-    return lambda g: T(
-        -_dot(_dot(ans, T(g)), ans)
-        + _dot(_dot(_dot(ans, T(ans)), g), anp.eye(x.shape[-2]) - _dot(x, ans))
-        + _dot(_dot(_dot(anp.eye(ans.shape[-2]) - _dot(ans, x), g), T(ans)), ans)
+    H = lambda a: anp.conj(T(a))
+    return lambda g: (
+        T(-_dot(_dot(ans, T(g)), ans))
+        + anp.conj(_dot(_dot(_dot(anp.eye(x.shape[-2]) - _dot(x, ans), T(g)), ans), H(ans)))
+        + anp.conj(_dot(_dot(_dot(H(ans), ans), T(g)), anp.eye(ans.shape[-2]) - _dot(ans, x)))
     )
 
 
